@@ -40,7 +40,7 @@ class Picker:
 
 
 class Sim:
-    def __init__(self, kind, picker, answer=None, dev_inst_map=None, hid_kwargs=None, register_callbacks=True):
+    def __init__(self, kind, picker, answer=None, dev_inst_map=None, hid_kwargs=None, register_callbacks=True, answer2=None):
         assert kind in DRIVERS
         self.kind = kind
         self.picker = picker
@@ -48,6 +48,10 @@ class Sim:
         self.answers = {}              # wire index -> answer given
         self.bus = sim.Bus(self._answer)
         self.user_answer = answer
+        # a second gateway of the same kind on a second bus, driven by a second driver instance in the same process
+        self.user_answer2 = answer2
+        self.bus2 = sim.Bus(lambda w_, v_, i_: self.user_answer2(w_, v_, i_, 0)) if answer2 is not None else None
+        self.driver2 = self.dev2 = None
         self.status_events = []        # (virtual time, status) from connection_status_callback
         self.traffic = []              # (virtual time, command, response, error flag) from bus_traffic
         self.driver = None
@@ -90,6 +94,11 @@ class Sim:
                 self.dev = sim.HassebUsb(w, p, self.bus)
                 self.shim.add("/dev/dali/hid", self.dev)
                 self.driver = H.hasseb(hid_path, **self.hid_kwargs)
+            if self.bus2 is not None:
+                cls_dev = sim.TridonicUsb if self.kind == "tridonic" else sim.HassebUsb
+                self.dev2 = cls_dev(w, p, self.bus2)
+                self.shim.add("/dev/dali/hid2", self.dev2)
+                self.driver2 = (H.tridonic if self.kind == "tridonic" else H.hasseb)("/dev/dali/hid2", **self.hid_kwargs)
             if self.register_callbacks:
                 self.driver.connection_status_callback.register(lambda d, s: self.status_events.append((w.now, s)))
                 self.driver.bus_traffic.register(lambda d, c, r, e: self.traffic.append((w.now, c, r, e)))
@@ -97,14 +106,26 @@ class Sim:
             S = importlib.import_module("dali.driver.serial")
             if self.kind == "luba":
                 self.dev = sim.LubaGateway(w, p, self.bus)
-                self.fake_serial = sim.FakeSerialAsyncio(w, {"/dev/ttyLUBA": self.dev})
+                devs = {"/dev/ttyLUBA": self.dev}
+                if self.bus2 is not None:
+                    self.dev2 = sim.LubaGateway(w, p, self.bus2)
+                    devs["/dev/ttyLUBA2"] = self.dev2
+                self.fake_serial = sim.FakeSerialAsyncio(w, devs)
                 S.serial_asyncio = self.fake_serial
                 self.driver = S.DriverLubaRs232("luba232:/dev/ttyLUBA", dev_inst_map=self.dev_inst_map)
+                if self.bus2 is not None:
+                    self.driver2 = S.DriverLubaRs232("luba232:/dev/ttyLUBA2")
             else:
                 self.dev = sim.SciGateway(w, p, self.bus)
-                self.fake_serial = sim.FakeSerialAsyncio(w, {"/dev/ttySCI": self.dev})
+                devs = {"/dev/ttySCI": self.dev}
+                if self.bus2 is not None:
+                    self.dev2 = sim.SciGateway(w, p, self.bus2)
+                    devs["/dev/ttySCI2"] = self.dev2
+                self.fake_serial = sim.FakeSerialAsyncio(w, devs)
                 S.serial_asyncio = self.fake_serial
                 self.driver = S.DriverSCIRS232("scirs232:/dev/ttySCI", dev_inst_map=self.dev_inst_map)
+                if self.bus2 is not None:
+                    self.driver2 = S.DriverSCIRS232("scirs232:/dev/ttySCI2")
         return self.driver
 
     async def connect(self):
@@ -113,8 +134,13 @@ class Sim:
             if self.kind in ("tridonic", "hasseb"):
                 d.connect()
                 await asyncio.wait_for(d.connected.wait(), 30.0)
+                if self.driver2 is not None:
+                    self.driver2.connect()
+                    await asyncio.wait_for(self.driver2.connected.wait(), 30.0)
             else:
                 await asyncio.wait_for(d.connect(), 30.0)
+                if self.driver2 is not None:
+                    await asyncio.wait_for(self.driver2.connect(), 30.0)
         except (asyncio.TimeoutError, OSError):
             if not self.attached():
                 raise HarnessDetached(f"the {self.kind} driver never touched the shimmed I/O boundary")
